@@ -18,6 +18,8 @@
 #include <sys/stat.h>
 #include <fcntl.h>
 #include <semaphore.h>
+#include <setjmp.h>
+#include <sys/wait.h>
 #include <yara/arena.h>
 #include <yara/rules.h>
 
@@ -42,6 +44,7 @@ enum { K_SCANNER_MEM, K_SCANNER_FILE, K_RULES_MEM, K_RULES_FILE, K_ABORT, K_CBER
 static const char* KNAME[] = {"scanner_mem", "scanner_file", "rules_mem", "rules_file", "cb_abort", "cb_error", "missing_file", "scanner_reuse", "fast_mode", "scan_fd", "timeout"};
 
 #define NBUF 6
+static const char* workdir_g;
 static uint8_t* bufs[NBUF]; static size_t blen[NBUF]; static char bpath[NBUF][512];
 static YR_RULES* rules;           // the read-only relocated rule set
 static YR_RULES* old_rules;       // kept reachable, never used again
@@ -57,7 +60,33 @@ static uint64_t fnv(uint64_t h, const void* p, size_t n) { const uint8_t* b = (c
 
 // handler protocol observed from outside: the application's SIGBUS handler (`app_handler`) must be in place whenever no scan is
 // inside YR_TRYCATCH, and replaced by libyara's while a scan is (every callback runs inside the protected region)
-static void app_handler(int sig, siginfo_t* si, void* uc) { _exit(77); }
+// the application's own SIGBUS handler: recovers a fault the application itself provokes on purpose (foreign to libyara), anything else ends the process
+static __thread sigjmp_buf* foreign_jmp;
+static volatile int foreign_seen;
+static void app_handler(int sig, siginfo_t* si, void* uc)
+{
+  if (foreign_jmp) { foreign_seen++; siglongjmp(*foreign_jmp, 1); }
+  static const char m[] = "h_conc: the APPLICATION's SIGBUS handler received a fault raised inside a libyara scan (the library did not recognise its own fault)\n";
+  if (write(2, m, sizeof m - 1) < 0) _exit(78);
+  _exit(77);
+}
+// provoke a SIGBUS outside any scan: read a private mapping of a file that was truncated; returns 1 when the application handler recovered it
+static int foreign_fault(int tag)
+{
+  char path[600]; snprintf(path, sizeof path, "%s/foreign_%d_%d.bin", workdir_g, (int) getpid(), tag);
+  int fd = open(path, O_RDWR | O_CREAT | O_TRUNC, 0600); if (fd < 0) return -1;
+  if (ftruncate(fd, 8192) != 0) { close(fd); return -1; }
+  volatile uint8_t* m = (volatile uint8_t*) mmap(NULL, 8192, PROT_READ, MAP_PRIVATE, fd, 0);
+  if (m == MAP_FAILED) { close(fd); return -1; }
+  if (ftruncate(fd, 0) != 0) { munmap((void*) m, 8192); close(fd); return -1; }
+  sigjmp_buf jb; int got = 0;
+  foreign_jmp = &jb;
+  if (sigsetjmp(jb, 1) == 0) { volatile uint8_t x = m[100]; (void) x; }
+  else got = 1;
+  foreign_jmp = NULL;
+  munmap((void*) m, 8192); close(fd); unlink(path);
+  return got;
+}
 static int hnd_inside_bad, hnd_outside_bad, fd_bad;
 static int app_handler_installed(void)
 {
@@ -182,19 +211,24 @@ static void* thr(void* a) { pthread_barrier_wait(&bar); work((JOB*) a); return N
 
 // ---- library lifetime + faulting scan (YR_TRYCATCH exercised for real): the file is truncated by the scan's own callback
 // after it was mapped, so the next access of the module parsers raises SIGBUS inside the protected region.
-typedef struct { char path[600]; int rc; int done; } FAULT;
+typedef struct { char path[600]; int rc; int done; size_t keep; int variant; } FAULT;
 static int fault_cb(YR_SCAN_CONTEXT* ctx, int msg, void* data, void* ud)
 {
   FAULT* f = (FAULT*) ud;
-  if (msg == CALLBACK_MSG_IMPORT_MODULE && !f->done) { f->done = 1; if (truncate(f->path, 0) != 0) f->rc = -2; }
+  if (msg == CALLBACK_MSG_IMPORT_MODULE && !f->done) { f->done = 1; if (truncate(f->path, (off_t) f->keep) != 0) f->rc = -2; }
   return CALLBACK_CONTINUE;
 }
 static const char* workdir;
-static void fault_scan(FAULT* f, int tag)
+// variant 0: the whole file disappears; 1..3: only the LAST page disappears, holding 1 byte / 2 bytes / a full page of the file — the first faulting access
+// is then the last byte, one of the last two bytes, or the first byte of the last page of the block
+static void fault_scan_v(FAULT* f, int tag, int variant)
 {
+  size_t pgs = (size_t) sysconf(_SC_PAGESIZE);
+  size_t size = variant == 0 ? blen[1] : (variant == 1 ? 3 * pgs + 1 : variant == 2 ? 3 * pgs + 2 : 4 * pgs);
+  f->keep = variant == 0 ? 0 : 3 * pgs;
   snprintf(f->path, sizeof f->path, "%s/fault_%d_%d.bin", workdir, (int) getpid(), tag);
   FILE* o = fopen(f->path, "wb"); if (!o) { f->rc = -3; return; }
-  fwrite(bufs[1], 1, blen[1], o); fclose(o);
+  fwrite(bufs[1], 1, size, o); fclose(o);
   f->done = 0; f->rc = -1;
   YR_SCANNER* sc = NULL;
   if (yr_scanner_create(rules, &sc) != ERROR_SUCCESS) { f->rc = -4; return; }
@@ -205,13 +239,14 @@ static void fault_scan(FAULT* f, int tag)
   yr_scanner_destroy(sc);
   unlink(f->path);
 }
-static void* fault_thr(void* a) { pthread_barrier_wait(&bar); FAULT* f = (FAULT*) a; fault_scan(f, 100 + (int) (((uintptr_t) f / sizeof(FAULT)) % 100000)); return NULL; }
+static void fault_scan(FAULT* f, int tag) { fault_scan_v(f, tag, 0); }
+static void* fault_thr(void* a) { pthread_barrier_wait(&bar); FAULT* f = (FAULT*) a; fault_scan_v(f, 100 + (int) (((uintptr_t) f / sizeof(FAULT)) % 100000), f->variant); return NULL; }
 
 // ---- too-many-matches parking scenario (library built with a small YR_MAX_STRING_MATCHES): thread A floods two strings; it answers CONTINUE for the
 // first one and PARKS inside the callback for the second one, i.e. while the first string is temporarily disabled in A's scan; meanwhile thread B scans a
 // buffer in which that first string occurs once. B's trace must equal its trace when run alone.
 static sem_t a_parked, b_done;
-typedef struct { TRACE t; int too_many; int park; } PARK;
+typedef struct { TRACE t; int too_many; int park; int refuse; } PARK;
 static int park_cb(YR_SCAN_CONTEXT* ctx, int msg, void* data, void* ud)
 {
   PARK* p = (PARK*) ud;
@@ -221,6 +256,7 @@ static int park_cb(YR_SCAN_CONTEXT* ctx, int msg, void* data, void* ud)
     YR_STRING* s = (YR_STRING*) data;
     p->t.h = fnv(p->t.h, s->identifier, strlen(s->identifier)); p->t.n++;
     if (p->too_many == 2 && p->park) { sem_post(&a_parked); sem_wait(&b_done); p->park = 2; }
+    if (p->refuse && p->too_many == 2) return CALLBACK_ABORT;
     return CALLBACK_CONTINUE;
   }
   return cb(ctx, msg, data, &p->t);
@@ -247,6 +283,24 @@ static void scan_flood(PARK* p, RES* out)
 static PARK pa; static RES ra, rb;
 static void* thr_a(void* x) { scan_flood(&pa, &ra); if (pa.park == 1) sem_post(&a_parked); return NULL; }
 static void* thr_b(void* x) { sem_wait(&a_parked); scan_once(&rb); sem_post(&b_done); return NULL; }
+
+static sem_t x_inside, x_release; static int hold_rc;
+static int hold_cb(YR_SCAN_CONTEXT* ctx, int msg, void* data, void* ud)
+{
+  int* first = (int*) ud;
+  if (!*first) { *first = 1; sem_post(&x_inside); sem_wait(&x_release); }
+  return CALLBACK_CONTINUE;
+}
+static void* thr_hold(void* a)
+{
+  YR_SCANNER* sc = NULL; int first = 0; hold_rc = -1;
+  if (yr_scanner_create(rules, &sc) != ERROR_SUCCESS) { sem_post(&x_inside); return NULL; }
+  define_ext(sc, 1); yr_scanner_set_callback(sc, hold_cb, &first);
+  hold_rc = yr_scanner_scan_mem(sc, bufs[0], blen[0]);
+  yr_scanner_destroy(sc);
+  if (!first) sem_post(&x_inside);
+  return NULL;
+}
 
 static uint64_t rules_hash(void)
 {
@@ -328,7 +382,7 @@ int main(int argc, char** argv)
 {
   if (argc < 2) DIE("usage: h_conc <workdir>");
   mkdir(argv[1], 0755);
-  workdir = argv[1];
+  workdir = argv[1]; workdir_g = argv[1];
   yr_initialize();
   { struct sigaction sa; memset(&sa, 0, sizeof sa); sa.sa_sigaction = app_handler; sa.sa_flags = SA_SIGINFO; sigemptyset(&sa.sa_mask); sigaction(SIGBUS, &sa, NULL); }
   make_buffers(argv[1]);
@@ -364,6 +418,41 @@ int main(int argc, char** argv)
   {
     int n = split(line, t, 8);
     if (n < 4) continue;
+    if (!strcmp(t[1], "F"))
+    {
+      // foreign fault while ANOTHER thread is held inside an ordinary (protected) scan: libyara's handler is installed at that moment and must hand the
+      // fault to the application's SIGBUS handler. Run in a forked child with a time limit: a process that spins or dies is the observation.
+      int rp[2]; if (pipe(rp)) DIE("pipe");
+      fflush(stdout);
+      pid_t pid = fork();
+      if (pid == 0)
+      {
+        close(rp[0]);
+        sem_init(&x_inside, 0, 0); sem_init(&x_release, 0, 0);
+        pthread_t tx; pthread_create(&tx, NULL, thr_hold, NULL);
+        sem_wait(&x_inside);
+        int yara_installed = app_handler_installed() ? 0 : 1;
+        int got = foreign_fault(9);
+        sem_post(&x_release); pthread_join(tx, NULL);
+        char res[128]; int l = snprintf(res, sizeof res, "recovered=%d yara_handler_installed_during_scan=%d held_scan=%s after_installed=%d", got, yara_installed, errname(hold_rc),
+                                        app_handler_installed());
+        if (write(rp[1], res, l) != l) _exit(3);
+        _exit(0);
+      }
+      close(rp[1]);
+      int status = 0, waited = 0;
+      while (waitpid(pid, &status, WNOHANG) == 0 && waited < 300) { struct timespec ts = {0, 100000000L}; nanosleep(&ts, NULL); waited++; }
+      char res[160] = ""; 
+      if (waited >= 300) { kill(pid, SIGKILL); waitpid(pid, &status, 0); printf("%s F outcome=TIMEOUT\n", t[0]); }
+      else
+      {
+        ssize_t rl = read(rp[0], res, sizeof res - 1); if (rl < 0) rl = 0; res[rl] = 0;
+        if (WIFEXITED(status) && WEXITSTATUS(status) == 0) printf("%s F outcome=done %s\n", t[0], res);
+        else printf("%s F outcome=DIED exit=%d signal=%d\n", t[0], WIFEXITED(status) ? WEXITSTATUS(status) : -1, WIFSIGNALED(status) ? WTERMSIG(status) : 0);
+      }
+      close(rp[0]); fflush(stdout);
+      continue;
+    }
     if (!strcmp(t[1], "P"))
     {
       int prot = ro_ok && !(n > 3 && !strcmp(t[3], "noprotect"));
@@ -381,8 +470,14 @@ int main(int argc, char** argv)
       if (prot) protect(0);
       uint64_t h1 = rules_hash();
       int mism = (rb.rc != b_alone.rc || rb.h != b_alone.h || rb.n != b_alone.n) + (ra.rc != a_alone.rc || ra.h != a_alone.h || ra.n != a_alone.n);
-      printf("%s P too_many=%d parked=%d mismatch=%d rules_hash=%s ro=%d b_alone=%s/%d/%016" PRIx64 " b_concurrent=%s/%d/%016" PRIx64 "\n", t[0], pa.too_many, pa.park == 2, mism,
-             h0 == h1 ? "same" : "CHANGED", prot, errname(b_alone.rc), b_alone.n, b_alone.h, errname(rb.rc), rb.n, rb.h);
+      // a scan that ERRORS in the block phase (callback refuses to continue after too many matches): afterwards the application's handler must be back
+      // (use count returned to 0) and a handler-recovered foreign fault must reach the application
+      PARK pe2; memset(&pe2, 0, sizeof pe2); pe2.t.h = 0xcbf29ce484222325ULL; pe2.refuse = 1; RES re2;
+      scan_flood(&pe2, &re2);
+      int after_bad = app_handler_installed() ? 0 : 1;
+      int foreign = foreign_fault(3);
+      printf("%s P too_many=%d parked=%d mismatch=%d rules_hash=%s ro=%d block_error_rc=%s handler_after_block_error_bad=%d foreign_after=%d b_alone=%s/%d/%016" PRIx64 " b_concurrent=%s/%d/%016" PRIx64 "\n", t[0], pa.too_many, pa.park == 2, mism,
+             h0 == h1 ? "same" : "CHANGED", prot, re2.rc < 0 ? "SETUP" : errname(re2.rc), after_bad, foreign, errname(b_alone.rc), b_alone.n, b_alone.h, errname(rb.rc), rb.n, rb.h);
       fflush(stdout);
       continue;
     }
@@ -391,7 +486,8 @@ int main(int argc, char** argv)
       // <id> L <nthreads> <seed>: the main thread takes a SECOND reference on the library (as another component of the program would), threads scan,
       // the main thread drops that reference again, and afterwards the remaining user's scans must still be fault-protected
       int nt = atoi(t[2]); if (nt < 1 || nt > 32) nt = 4;
-      FAULT alone; fault_scan(&alone, 1);
+      FAULT alone; alone.rc = 0;
+      for (int v = 0; v < 4; v++) { FAULT a1; fault_scan_v(&a1, 1 + v, v); if (a1.rc != ERROR_COULD_NOT_MAP_FILE) alone = a1; else if (v == 0) alone = a1; }
       int rc_init = yr_initialize();
       FAULT* fs = (FAULT*) calloc(nt, sizeof(FAULT)); pthread_t* th = (pthread_t*) calloc(nt, sizeof(pthread_t));
       JOB* js = (JOB*) calloc(nt, sizeof(JOB));
@@ -401,14 +497,14 @@ int main(int argc, char** argv)
       pthread_barrier_destroy(&bar);
       int rc_fin = yr_finalize();
       pthread_barrier_init(&bar, NULL, nt);
-      for (int i = 0; i < nt; i++) pthread_create(&th[i], NULL, fault_thr, &fs[i]);
+      for (int i = 0; i < nt; i++) { fs[i].variant = i % 4; pthread_create(&th[i], NULL, fault_thr, &fs[i]); }
       for (int i = 0; i < nt; i++) pthread_join(th[i], NULL);
       pthread_barrier_destroy(&bar);
       int okc = 0, other = 0, first_other = 0;
       for (int i = 0; i < nt; i++) { if (fs[i].rc == ERROR_COULD_NOT_MAP_FILE) okc++; else { if (!other) first_other = fs[i].rc; other++; } }
-      printf("%s L n=%d nested_init=%s nested_finalize=%s fault_alone=%s fault_after=COULD_NOT_MAP_FILE:%d,other:%d first_other=%s handler_outside_bad=%d\n", t[0], nt,
+      printf("%s L n=%d nested_init=%s nested_finalize=%s fault_alone=%s fault_after=COULD_NOT_MAP_FILE:%d,other:%d first_other=%s handler_outside_bad=%d foreign_after=%d\n", t[0], nt,
              errname(rc_init), errname(rc_fin), alone.rc < 0 ? "SETUP" : errname(alone.rc), okc, other, other ? (first_other < 0 ? "SETUP" : errname(first_other)) : "-",
-             app_handler_installed() ? 0 : 1);
+             app_handler_installed() ? 0 : 1, foreign_fault(2));
       fflush(stdout);
       for (int i = 0; i < nt; i++) free(js[i].out);
       free(fs); free(th); free(js);
@@ -456,8 +552,8 @@ int main(int argc, char** argv)
           mism++;
         }
       }
-    printf("%s n=%d scans=%d mismatch=%d rules_hash=%s ro=%d handler_inside_bad=%d handler_outside_bad=%d fd_bad=%d kinds=", t[0], nt, scans, mism, h0 == h1 ? "same" : "CHANGED", prot,
-           hnd_inside_bad, hnd_outside_bad, fd_bad);
+    printf("%s n=%d scans=%d mismatch=%d rules_hash=%s ro=%d handler_inside_bad=%d handler_outside_bad=%d fd_bad=%d foreign_after=%d kinds=", t[0], nt, scans, mism, h0 == h1 ? "same" : "CHANGED", prot,
+           hnd_inside_bad, hnd_outside_bad, fd_bad, foreign_fault(1));
     for (int k = 0; k < K_NKINDS; k++) if (kinds[k]) printf("%s:%d,", KNAME[k], kinds[k]);
     printf(" rcs=");
     for (int k = 0; k < 80; k++) if (rch[k]) printf("%s:%d,", errname(k), rch[k]);
